@@ -1,5 +1,5 @@
 (* C04 — Experiments cannot wedge: quiescence implies a verdict; no hot loop. *)
-From KV Require Import Base.Prelude Base.Cond Model.World Proofs.WorldPlan Proofs.EqbRefl Proofs.WorldInv2 Proofs.WorldInv5 Proofs.WorldQuiet Proofs.F18 Proofs.WorldSucc.
+From KV Require Import Base.Prelude Base.Cond Model.World Proofs.WorldPlan Proofs.EqbRefl Proofs.WorldInv2 Proofs.WorldInv5 Proofs.WorldQuiet Proofs.F18 Proofs.WorldSucc Proofs.WorldCalm.
 Open Scope Z_scope.
 
 (* The trial controller is never what wedges an experiment: a created, non-completed trial whose job is absent, or
@@ -88,6 +88,41 @@ Theorem C04_no_wedge_premises_satisfiable :
               e_completed (e_st e) = true.
 Proof. exact no_wedge_premises_hold. Qed.
 Print Assumptions C04_no_wedge_premises_satisfiable.
+
+(* THE theorem within the quantifier of the property (environment events, faults, aborts, cache lag — but nobody edits the
+   spec): for EVERY resume policy and every history of the model without a raise of maxTrialCount and without teardown
+   that ends quiescent with a finished environment, the experiment carries its verdict.  The only assumption left is that
+   the algorithm service never returned the same trial name twice.  Behind it: without an edit a restart is never enabled
+   (a MaxTrialsReached verdict is only given when maxTrialCount <= the trials counted, CalmInv), hence a settled verdict
+   stays, hence a Succeeded suggestion always goes with a completed experiment (SuccInv2). *)
+Theorem C04_no_wedge_no_edit : forall c acts e m,
+  valid_cfg c -> calm_acts acts ->
+  quiescent (run c acts) -> env_done (run c acts) ->
+  w_exp (run c acts) = Some e -> e_max e = Some m ->
+  (forall s, w_sug (run c acts) = Some s -> NoDup (ss_names (s_st s))) ->
+  e_completed (e_st e) = true.
+Proof. exact no_wedge_no_edit. Qed.
+Print Assumptions C04_no_wedge_no_edit.
+
+Theorem C04_no_restart_without_edit : forall c acts e,
+  valid_cfg c -> calm_acts acts -> w_exp (run c acts) = Some e -> restart_enabled_e c e = false.
+Proof. exact no_restart_without_edit. Qed.
+Print Assumptions C04_no_restart_without_edit.
+
+Theorem C04_succeeded_means_verdict_no_edit : forall c acts s,
+  valid_cfg c -> calm_acts acts -> w_sug (run c acts) = Some s -> s_is (s_st s) SSucceeded = true ->
+  exists e, w_exp (run c acts) = Some e /\ e_completed (e_st e) = true.
+Proof. exact succeeded_implies_verdict_no_edit. Qed.
+Print Assumptions C04_succeeded_means_verdict_no_edit.
+
+(* Non-vacuity (resumePolicy FromVolume): a history without edits meeting every premise, with a Succeeded suggestion. *)
+Theorem C04_no_wedge_no_edit_premises_satisfiable :
+  valid_cfg f18_cfg /\ calm_acts fv_acts /\ quiescent (run f18_cfg fv_acts) /\ env_done (run f18_cfg fv_acts) /\
+  exists e s, w_exp (run f18_cfg fv_acts) = Some e /\ e_max e = Some 1 /\
+              w_sug (run f18_cfg fv_acts) = Some s /\ NoDup (ss_names (s_st s)) /\ s_is (s_st s) SSucceeded = true /\
+              e_completed (e_st e) = true.
+Proof. exact no_wedge_no_edit_premises_hold. Qed.
+Print Assumptions C04_no_wedge_no_edit_premises_satisfiable.
 
 (* No hot loop: in a quiescent state a further reconcile of any controller attempts no write and changes nothing in the store. *)
 Theorem C04_no_hot_loop : forall w c key resp,
